@@ -35,7 +35,11 @@ def datetime_is_date(series: pd.Series, state: dict) -> bool:
 
 @Date.register_transformer(DateTime, pd.Series)
 def datetime_to_date(series: pd.Series, state: dict) -> pd.Series:
-    return series.dt.date
+    result = series.dt.date
+    if isinstance(result.dtype, pd.ArrowDtype):
+        # arrow-backed timestamps give date32[pyarrow]; a Date column holds python dates, as for numpy-backed input
+        result = result.astype(object)
+    return result
 
 
 @Date.contains_op.register
